@@ -221,7 +221,26 @@ def op_pb_big(op):
     return {"clauses": len(sm.clauses), "solve": bool(sm.solve())}
 
 
-OPS = {"heule_deep": op_heule_deep, "pb_big": op_pb_big, "mutate_same": op_mutate_same, "netlist": op_netlist, "die": op_die, "die_refine": op_die_refine, "alloc": op_alloc, "stog": op_stog, "pb": op_pb, "legal": op_legal, "strop": op_strop}
+def op_pb_many(op):
+    """a long run of encodings of other designs (as the rectangle tool produces in one session): hundreds of inequalities over
+    fourteen variables with large coefficients; only sizes are reported"""
+    import random as _r
+    from tools.rect import satmanager, pseudobool as pb
+    rnd = _r.Random(op["seed"])
+    total = 0
+    for _ in range(op["count"]):
+        sm = satmanager.SATManager()
+        lits = [sm.newvar(f"x{k}") for k in range(op["nv"])]
+        coefs = [rnd.randrange(1000, 100000) for _ in lits]
+        e = pb.Expr()
+        for l, c in zip(lits, coefs):
+            e = e + l * c
+        sm.pseudoboolencoding(e >= sum(coefs) // 2)
+        total += len(sm.clauses)
+    return {"clauses": total}
+
+
+OPS = {"pb_many": op_pb_many, "heule_deep": op_heule_deep, "pb_big": op_pb_big, "mutate_same": op_mutate_same, "netlist": op_netlist, "die": op_die, "die_refine": op_die_refine, "alloc": op_alloc, "stog": op_stog, "pb": op_pb, "legal": op_legal, "strop": op_strop}
 
 
 class OpTimeout(BaseException):
